@@ -27,6 +27,8 @@ pub fn entry() -> crate::Entry {
 }
 
 fn push(sink: &mut Sink, f: Finding, tags: &[String], case: &Value) {
+    // per-class census in the evidence counters: "V|clause|symptom|composite tag"
+    sink.count(&format!("V|{}|{}|{}", f.clause, f.symptom, tags.first().map(|s| s.as_str()).unwrap_or("")), 1);
     sink.violations.push(Violation { clause: f.clause.to_string(), symptom: f.symptom, tags: tags.to_vec(), case: case.clone(), detail: f.detail });
 }
 
@@ -85,7 +87,7 @@ fn compute_plan(tier: Tier, fx: &Fx) -> Plan {
         let o = run_forked(&ChildCfg { fsize: None, drop_priv: false, timeout: Duration::from_secs(60) }, || fx.do_save(wl, &dest, &src));
         let d = read_dest(&dest);
         let ok = match (&o, &d) {
-            (Res::Ok, Dest::File(b)) => fx.is_complete_new(wl, b).map(|_| b.len() as u64),
+            (Res::Ok, Dest::File(b)) => fx.is_complete_new(wl, b).and_then(|_| if !wl.is_cfb() && b.len() != fx.reference(wl).bytes.len() { Err(format!("size {} differs from the in-memory reference {} (saves are not in a steady state)", b.len(), fx.reference(wl).bytes.len())) } else { Ok(b.len() as u64) }),
             _ => Err(format!("{} / {:?}", o.text(), listing(&cd.d))),
         };
         cd.remove();
@@ -446,7 +448,7 @@ impl Space for RlimitSpace {
         let tags = self.tags(i);
         let case = self.describe(i);
         sink.evaluations += 1;
-        let cd = CaseDir::create(&format!("rl-{}", i));
+        let cd = CaseDir::create("rl");
         cd.prepare(&self.fx, wl, pre);
         let (dest, src) = (cd.dest(wl), cd.src());
         let o = run_forked(&ChildCfg { fsize: Some(l), drop_priv: false, timeout: Duration::from_secs(30) }, || self.fx.do_save(wl, &dest, &src));
@@ -516,7 +518,7 @@ impl Space for TargetSpace {
         let tags = self.tags(i);
         let case = self.describe(i);
         sink.evaluations += 1;
-        let cd = CaseDir::create(&format!("tg-{}", i));
+        let cd = CaseDir::create("tg");
         let mut dest = cd.dest(wl);
         let mut before = if pre == Pre::Old { Before::Old } else { Before::Absent };
         match sc {
@@ -560,6 +562,7 @@ impl Space for TargetSpace {
         let d = read_dest(&dest);
         let ls = listing(&cd.d);
         let inner_ok = sc != "target-is-nonempty-directory" || dest.join("inner.txt").exists();
+        cd.make_writable();
         cd.remove();
         let (dclass, mut fs) = judge(&self.fx, wl, before, &o, &d, false);
         sink.obs(&format!("target|{}|{}|{}|{}|{}|{:?}", wl.name(), sc, pre.name(), o.kind(), dclass, ls));
@@ -600,7 +603,9 @@ pub fn space(tier: Tier, id: &str) -> Option<Box<dyn Space>> {
 }
 
 fn replay(tier: Tier, case: &Value) -> Vec<Violation> {
-    replay_e1(space(tier, case["_space"].as_str().unwrap_or("")), case)
+    let v = replay_e1(space(tier, case["_space"].as_str().unwrap_or("")), case);
+    purge_scratch();
+    v
 }
 
 fn run(ctx: &Ctx) -> i32 {
@@ -647,7 +652,7 @@ fn run(ctx: &Ctx) -> i32 {
         caps.push(format!("encrypted workloads under RLIMIT_FSIZE: every {}th byte limit plus all boundary values (each encrypted save costs ~0.1 s)", THOROUGH_CFB_STEP));
     }
     let windows: BTreeMap<String, Vec<String>> = p.windows.iter().map(|(k, v)| (k.clone(), v.iter().map(|s| format!("{}#{}", s.name, s.ordinal)).collect())).collect();
-    run_e1(
+    let code = run_e1(
         ctx,
         E1Spec {
             spaces,
@@ -661,7 +666,9 @@ fn run(ctx: &Ctx) -> i32 {
             assumptions,
             min_distinct: 50,
         },
-    )
+    );
+    purge_scratch();
+    code
 }
 
 #[allow(dead_code)]
